@@ -63,6 +63,34 @@ theorem C07_seconds_expose (tck nf : Nat) (t : Ticks) :
     seconds tck nf t = (Times.ofTicks tck t).expose nf := by
   simp [seconds, Times.expose, Times.ofTicks, Times.cols, Ticks.cols, List.map_take]
 
+/-! ### the token grammar behind `C07_times_exact`
+
+`C07_times_exact` quantifies over kernel states and lets the renderer print them. The only
+assumption about the *text* a kernel produces is therefore the renderer's: every counter is
+printed as `%llu`. `isKernelTok` states that grammar on its own (non-empty ASCII decimal digits, no
+leading zero except `0`), so that it can be checked against the live `/proc/stat` on every run;
+strings `float()` also accepts but no kernel prints (`1e3`, `+5`, `1_0`, `nan`, `inf`, ` 7`) are
+outside the grammar and outside the claim. -/
+
+/-- **C07_token_grammar.** Every counter token of every rendered `cpu` line is in the grammar. -/
+theorem C07_token_grammar (ncols i : Nat) (t : Ticks) :
+    (∀ tok ∈ (splitWs (renderTotalLine ncols t)).drop 1, isKernelTok tok = true) ∧
+    (∀ tok ∈ (splitWs (renderCpuLine ncols i t)).drop 1, isKernelTok tok = true) := by
+  rw [splitWs_totalLine, splitWs_cpuLine]
+  simp only [List.drop_succ_cons, List.drop_zero, List.mem_map]
+  constructor <;>
+  · rintro tok ⟨n, _, rfl⟩
+    exact renderDec_kernelTok n
+
+/-- **C07_grammar_tokens_parse.** On the grammar the parser is total and exact: each token is
+    read as its decimal value divided by `USER_HZ` (never ValueError). -/
+theorem C07_grammar_tokens_parse (tck : Nat) (htck : 0 < tck) (tok : Bytes) (h : isKernelTok tok = true) :
+    ∃ n : Nat, parseDec? tok = some n ∧ parseFloatTok cfg tck tok = .ok ((n : Rat) / (tck : Rat)) := by
+  obtain ⟨n, hn⟩ := kernelTok_parses tok h
+  refine ⟨n, hn, ?_⟩
+  have h0 : tck ≠ 0 := by omega
+  simp [parseFloatTok, hn, cfg_good.divTicks, h0]
+
 /-! ## B. `cpu_percent()` -/
 
 /-- **C07_percent_formula.** Between any two samples (any rationals, any of the four field
@@ -239,6 +267,78 @@ theorem C07_per_cpu_separately {β : Type} (f : Sample → Sample → PRes β) (
     ∀ k (hk : k < vs.length) (ha : k < as.length) (hb : k < bs.length),
       f as[k] bs[k] = .ok vs[k] := mapPairs_get f as bs vs h
 
+/-- **C07_percpu_any_lengths.** What `percpu=True` returns when the two per-CPU samples have
+    DIFFERENT lengths (a CPU was added or removed between them): one percentage per CPU present in
+    both samples, position by position — entry `k` from the two `k`-th records and from nothing
+    else — and nothing for the CPUs present in only one of them. No entry is ever computed from
+    records at two different positions (CPU numbers are positions in the kernel's list; a kernel
+    that renumbers is outside the model). -/
+theorem C07_percpu_any_lengths (vlen tck : Nat) (os ns : List Times) :
+    calcStored ⟨cfg, vlen, tck⟩ .percent (.many (os.map (Times.expose (nfOf vlen))))
+        (.many (ns.map (Times.expose (nfOf vlen))))
+      = .ok (.nums (perCpuPercent (nfOf vlen) os ns)) ∧
+    (perCpuPercent (nfOf vlen) os ns).length = min os.length ns.length := by
+  constructor
+  · simp only [calcStored, Env.fields]
+    have : mapPairs (calcPercent cfg (fieldsFor cfg vlen)) (os.map (Times.expose (nfOf vlen)))
+        (ns.map (Times.expose (nfOf vlen))) = .ok (perCpuPercent (nfOf vlen) os ns) := by
+      induction os generalizing ns with
+      | nil => simp [mapPairs, perCpuPercent]
+      | cons o os ih =>
+        cases ns with
+        | nil => simp [mapPairs, perCpuPercent]
+        | cons n ns =>
+          simp only [List.map_cons, mapPairs, C07_percent_formula, ih ns, perCpuPercent]
+    rw [this]
+    rfl
+  · induction os generalizing ns with
+    | nil => simp [perCpuPercent]
+    | cons o os ih =>
+      cases ns with
+      | nil => simp [perCpuPercent]
+      | cons n ns => simp [perCpuPercent, ih ns, Nat.succ_min_succ]
+
+/-- **C07_percpu_cpu_count_change.** End to end on kernel states with ANY two numbers of CPUs: a
+    thread's first `cpu_percent(percpu=True)` that sees `w1` (n₁ CPUs) and then `w2` (n₂ CPUs)
+    returns min(n₁, n₂) values, the `k`-th being CPU `k`'s percentage on the kernel's own
+    counters, and remembers ALL n₂ CPUs of `w2` for the next call. -/
+theorem C07_percpu_cpu_count_change (tck : Nat) (htck : 0 < tck) (vlen ncols : Nat)
+    (hcols : nfOf vlen ≤ ncols) (w1 w2 : ProcStat)
+    (ho1 : ∀ l ∈ w1.other, 10 ∉ l) (ho2 : ∀ l ∈ w2.other, 10 ∉ l)
+    (hp1 : ∀ l ∈ w1.other, startsWith [99, 112, 117] l = false)
+    (hp2 : ∀ l ∈ w2.other, startsWith [99, 112, 117] l = false) (tid : Tid) (rest : List Bytes) :
+    let e : Env := ⟨cfg, vlen, tck⟩
+    let c : Call := ⟨.percent, tid, none, true, renderProcStat ncols w1 :: renderProcStat ncols w2 :: rest⟩
+    (step e St.init c).2 =
+        .ok (.nums (perCpuPercent (nfOf vlen) (w1.cpus.map (Times.ofTicks tck))
+                      (w2.cpus.map (Times.ofTicks tck)))) 2 ∧
+    (step e St.init c).1 ⟨.percent, true⟩ tid = some (.many (w2.cpus.map (seconds tck (nfOf vlen)))) := by
+  intro e c
+  have s1 : sample e true (renderProcStat ncols w1) = .ok (.many (w1.cpus.map (seconds tck (nfOf vlen)))) := by
+    simp only [sample, Env.fields, if_true, e]
+    rw [C07_per_cpu_times_exact tck htck vlen ncols hcols w1 ho1 hp1]
+  have s2 : sample e true (renderProcStat ncols w2) = .ok (.many (w2.cpus.map (seconds tck (nfOf vlen)))) := by
+    simp only [sample, Env.fields, if_true, e]
+    rw [C07_per_cpu_times_exact tck htck vlen ncols hcols w2 ho2 hp2]
+  have hsec : ∀ l : List Ticks, l.map (seconds tck (nfOf vlen))
+      = (l.map (Times.ofTicks tck)).map (Times.expose (nfOf vlen)) := by
+    intro l
+    simp [List.map_map, Function.comp_def, C07_seconds_expose]
+  have hc : calcStored e .percent (.many (w1.cpus.map (seconds tck (nfOf vlen))))
+      (.many (w2.cpus.map (seconds tck (nfOf vlen))))
+      = .ok (.nums (perCpuPercent (nfOf vlen) (w1.cpus.map (Times.ofTicks tck))
+                      (w2.cpus.map (Times.ofTicks tck)))) := by
+    rw [hsec, hsec]
+    exact (C07_percpu_any_lengths vlen tck _ _).1
+  constructor
+  · rw [step_unfold]
+    simp only [c, Call.negative, Call.blocking, refOf, usable, St.init, Bool.false_eq_true, if_false, s1]
+    rw [finish_out]
+    simp only [s2, hc]
+  · rw [step_entry e cfg_good.dictsDistinct]
+    simp [prevStep, taken, c, Call.fam, Call.negative, Call.blocking, usable, St.init, s1, s2,
+      Except.toOption]
+
 /-! ## D. each thread against its own previous sample -/
 
 /-- **C07_own_previous_sample.** After ANY history of calls (both functions, both variants, any
@@ -307,6 +407,133 @@ theorem C07_end_to_end (tck : Nat) (htck : 0 < tck) (vlen ncols : Nat) (hcols : 
   rw [finish_out]
   simp only [s2, hc]
 
+/-! ### "since last call or module import" — the very first call -/
+
+/-- **C07_since_import.** The state the module-level code leaves behind when thread `tid0` imports
+    psutil (one system-wide and one per-CPU sample, shared by both functions; nothing when the read
+    failed; nothing for any other thread) is the starting point: after ANY history that follows,
+    a call returns the history-defined value measured from the import-time sample. In particular
+    the importing thread's first `cpu_percent()` measures "since import" with ONE read, every
+    other thread's first call takes two samples back to back. -/
+theorem C07_since_import (vlen tck : Nat) (tid0 : Tid) (r0 r1 : Bytes) (h : List Call) (c : Call) :
+    let e : Env := ⟨cfg, vlen, tck⟩
+    (step e (runAll e (importState e tid0 r0 r1) h) c).2
+      = expectedSinceImport (sample e) (calcStored e) tid0 r0 r1 h c := by
+  intro e
+  rw [step_out_ref e cfg_good.dictsDistinct, runAll_entry e cfg_good.dictsDistinct, importState_entry]
+  rfl
+
+/-- **C07_first_call_after_import.** End to end: psutil imported while the kernel state was `w0`,
+    the importing thread's first non-blocking `cpu_percent()` made when it is `w1`: ONE read, the
+    percentage between `w0` and `w1` on the kernel's own counters. -/
+theorem C07_first_call_after_import (tck : Nat) (htck : 0 < tck) (vlen ncols : Nat)
+    (hcols : nfOf vlen ≤ ncols) (w0 w1 : ProcStat) (ho0 : ∀ l ∈ w0.other, 10 ∉ l)
+    (ho1 : ∀ l ∈ w1.other, 10 ∉ l) (tid0 : Tid) (rPer : Bytes) (rest : List Bytes) :
+    let e : Env := ⟨cfg, vlen, tck⟩
+    let c : Call := ⟨.percent, tid0, none, false, renderProcStat ncols w1 :: rest⟩
+    (step e (importState e tid0 (renderProcStat ncols w0) rPer) c).2 =
+      .ok (.num (percent (nfOf vlen) (Times.ofTicks tck w0.total) (Times.ofTicks tck w1.total))) 1 := by
+  intro e c
+  have s0 : sample e false (renderProcStat ncols w0) = .ok (.one (seconds tck (nfOf vlen) w0.total)) := by
+    simp only [sample, Env.fields, Bool.false_eq_true, if_false, e]
+    rw [C07_times_exact tck htck vlen ncols hcols w0 ho0]
+  have s1 : sample e false (renderProcStat ncols w1) = .ok (.one (seconds tck (nfOf vlen) w1.total)) := by
+    simp only [sample, Env.fields, Bool.false_eq_true, if_false, e]
+    rw [C07_times_exact tck htck vlen ncols hcols w1 ho1]
+  have hc : calcStored e .percent (.one (seconds tck (nfOf vlen) w0.total)) (.one (seconds tck (nfOf vlen) w1.total))
+      = .ok (.num (percent (nfOf vlen) (Times.ofTicks tck w0.total) (Times.ofTicks tck w1.total))) := by
+    simp only [calcStored, Env.fields, C07_seconds_expose, e]
+    rw [C07_percent_formula]
+    rfl
+  have htr : (Stored.one (seconds tck (nfOf vlen) w0.total)).truthy = true := by
+    rcases nfOf_cases vlen with h | h | h | h <;> simp [Stored.truthy, seconds, Ticks.cols, h]
+  have hst : importState e tid0 (renderProcStat ncols w0) rPer c.fam c.tid
+      = some (.one (seconds tck (nfOf vlen) w0.total)) := by
+    rw [importState_entry]
+    simp [importSample, c, Call.fam, s0, Except.toOption]
+  rw [step_out_ref e cfg_good.dictsDistinct, hst]
+  simp only [expectedRef, c, Call.negative, Call.blocking, usable, htr, Bool.false_eq_true, if_false,
+    if_true, s1, hc]
+
+/-! ### threads and thread identifiers -/
+
+/-- the full-strength statement in terms of THREADS: read `Call.tid` as the thread that calls and
+    let `ident` be the identifier the interpreter gave it (`threading.current_thread().ident`,
+    which may be handed out again after a thread has ended — `DisjointLifetimes`). Every call is
+    measured against the calling *thread's* own previous sample. -/
+def C07_own_thread_Full (c0 : Cfg) : Prop :=
+  ∀ (vlen tck : Nat) (ident : Tid → Tid) (h : List Call) (c : Call),
+    DisjointLifetimes ident (h ++ [c]) →
+    (step ⟨c0, vlen, tck⟩ (runAll ⟨c0, vlen, tck⟩ St.init (h.map (reTid ident))) (reTid ident c)).2
+      = expected (sample ⟨c0, vlen, tck⟩) (calcStored ⟨c0, vlen, tck⟩) h c
+
+/-- **C07_own_thread_partial.** The statement holds whenever no two threads of the history share
+    an identifier — the explicit hypothesis under which `C07_own_previous_sample` speaks about
+    threads rather than identifiers. -/
+theorem C07_own_thread_partial (vlen tck : Nat) (ident : Tid → Tid) (h : List Call) (c : Call)
+    (hinj : IdentInjectiveOn ident h c) :
+    (step ⟨cfg, vlen, tck⟩ (runAll ⟨cfg, vlen, tck⟩ St.init (h.map (reTid ident))) (reTid ident c)).2
+      = expected (sample ⟨cfg, vlen, tck⟩) (calcStored ⟨cfg, vlen, tck⟩) h c := by
+  have h1 := C07_own_previous_sample vlen tck (h.map (reTid ident)) (reTid ident c)
+  simp only at h1
+  rw [h1]
+  unfold expected prev
+  have hp := prev_reTid (sample ⟨cfg, vlen, tck⟩) ident c.fam c.tid h
+    (fun a ha hi => hinj a (by simp [ha]) c (by simp) hi) none
+  have e1 : (reTid ident c).fam = c.fam := rfl
+  have e2 : (reTid ident c).tid = ident c.tid := rfl
+  rw [e1, e2, hp]
+  rfl
+
+/-- **C07_ident_reuse_inherits.** What is returned when identifiers ARE shared: the sample filed
+    under the caller's identifier by whoever used that identifier last — a new thread that got
+    a dead thread's identifier is measured against the dead thread's last sample (one read; the
+    documentation calls the first value meaningless). -/
+theorem C07_ident_reuse_inherits (vlen tck : Nat) (ident : Tid → Tid) (h : List Call) (c : Call) :
+    (step ⟨cfg, vlen, tck⟩ (runAll ⟨cfg, vlen, tck⟩ St.init (h.map (reTid ident))) (reTid ident c)).2
+      = expected (sample ⟨cfg, vlen, tck⟩) (calcStored ⟨cfg, vlen, tck⟩)
+          (h.map (reTid ident)) (reTid ident c) :=
+  C07_own_previous_sample vlen tck (h.map (reTid ident)) (reTid ident c)
+
+/-- **C07_ident_reuse_counterexample.** Without the hypothesis the thread-level statement is
+    FALSE: thread 1 calls `cpu_percent()` and ends, thread 2 is given the same identifier; its
+    first call is answered from thread 1's sample with ONE read instead of taking its own two. -/
+theorem C07_ident_reuse_counterexample : ¬ C07_own_thread_Full cfg := by
+  intro hfull
+  let w : ProcStat := ⟨⟨1, 2, 3, 4, 5, 6, 7, 8, 9, 10⟩, [], []⟩
+  let r : Bytes := renderProcStat 10 w
+  let e : Env := ⟨cfg, 10, 100⟩
+  let c1 : Call := ⟨.percent, 1, none, false, [r, r]⟩
+  let c2 : Call := ⟨.percent, 2, none, false, [r, r]⟩
+  have hd : DisjointLifetimes (fun _ => 7) ([c1] ++ [c2]) := by
+    intro i j k hi hj hk
+    simp at hk
+    omega
+  have h1 := hfull 10 100 (fun _ => 7) [c1] c2 hd
+  rw [C07_ident_reuse_inherits] at h1
+  have hnf : nfOf 10 = 10 := by decide
+  have s0 : sample e false r = .ok (.one (seconds 100 10 w.total)) := by
+    simp only [sample, Env.fields, Bool.false_eq_true, if_false, e, r]
+    rw [C07_times_exact 100 (by decide) 10 10 (by decide) w (by simp [w]), hnf]
+  have hc : calcStored e .percent (.one (seconds 100 10 w.total)) (.one (seconds 100 10 w.total))
+      = .ok (.num (percent 10 (Times.ofTicks 100 w.total) (Times.ofTicks 100 w.total))) := by
+    have := C07_percent_formula 10 (Times.ofTicks 100 w.total) (Times.ofTicks 100 w.total)
+    rw [hnf] at this
+    simp only [calcStored, Env.fields, C07_seconds_expose, e, this]
+    rfl
+  have htr : (Stored.one (seconds 100 10 w.total)).truthy = true := by
+    simp [Stored.truthy, seconds, Ticks.cols]
+  have hL : expected (sample e) (calcStored e) ([c1].map (reTid fun _ => 7)) (reTid (fun _ => 7) c2)
+      = .ok (.num (percent 10 (Times.ofTicks 100 w.total) (Times.ofTicks 100 w.total))) 1 := by
+    simp [expected, expectedRef, prev, prevStep, taken, reTid, c1, c2, Call.fam, Call.negative,
+      Call.blocking, usable, s0, hc, htr, Except.toOption]
+  have hR : expected (sample e) (calcStored e) [c1] c2
+      = .ok (.num (percent 10 (Times.ofTicks 100 w.total) (Times.ofTicks 100 w.total))) 2 := by
+    simp [expected, expectedRef, prev, prevStep, c1, c2, Call.fam, Call.negative,
+      Call.blocking, usable, s0, hc]
+  rw [hL, hR] at h1
+  simp at h1
+
 /-- **C07_negative_interval_raises.** A negative interval raises ValueError before anything is
     read or remembered. -/
 theorem C07_negative_interval_raises (e : Env) (s : St) (c : Call) (i : Rat)
@@ -316,7 +543,8 @@ theorem C07_negative_interval_raises (e : Env) (s : St) (c : Call) (i : Rat)
 
 /-! ## E. `Process.cpu_percent()` -/
 
-/-- **C07_proc_percent.** After ANY history of `cpu_percent` calls on any number of `Process`
+/-- **C07_proc_percent** (the part of `C07_proc_percent_Full` that holds for the code as found
+    AND as repaired). After ANY history of `cpu_percent` calls on any number of `Process`
     objects (CPU count constant): a call returns `round1(100·(CPU seconds used)/(wall seconds
     elapsed))` measured from that object's own previous call, 0.0 on the object's first call
     and when no wall time elapsed, and raises ValueError for a negative interval; the blocking
@@ -360,6 +588,84 @@ theorem C07_proc_percent (tck : Nat) (k : Option Int) (h : List PCall) (p : PCal
           | some v =>
             obtain ⟨w1, u1, s1⟩ := v
             simp only [Option.map_some, procFinish_eq cfg cfg_good]
+
+/-- the full-strength statement the property makes — no exception for a CPU count that changes
+    between two calls (CPU hot-plug, `psutil.cpu_count()` differs): after ANY history, with ANY
+    sequence of CPU counts, a call returns `round1(100·Δcpu/Δwall)` since that object's
+    previous call -/
+def C07_proc_percent_Full (c : Cfg) : Prop :=
+  ∀ (tck : Nat) (h : List PCall) (p : PCall),
+    (pstep c tck (prunAll c tck PSt.init h) p).2 = pexpected tck h p
+
+/-- **C07_proc_percent_fixed.** When the raw clock is remembered and the *difference* is scaled by
+    the current CPU count (`delta_time = (st2 - st1) * num_cpus`), the full statement holds. -/
+theorem C07_proc_percent_fixed (c : Cfg) (hg : c.Good) (hs : c.procScaleDelta = true) :
+    C07_proc_percent_Full c := by
+  intro tck h p
+  have he := prunAll_entry_fixed c hs tck h PSt.init none p.obj rfl
+  unfold pstep pexpected pexpectedExact
+  by_cases hn : p.negative = true
+  · simp [hn]
+  · simp only [hn, Bool.false_eq_true, if_false]
+    by_cases hb : p.blocking = true
+    · simp only [hb, if_true]
+      cases p.timer with
+      | nil => rfl
+      | cons t1 ts =>
+        cases ts with
+        | nil => cases p.times <;> rfl
+        | cons t2 ts' =>
+          cases p.times with
+          | nil => rfl
+          | cons a as =>
+            cases as with
+            | nil => rfl
+            | cons b bs =>
+              obtain ⟨u1, s1⟩ := a
+              obtain ⟨u2, s2⟩ := b
+              simp only [procStamp, hs, if_true, procFinish_fixed c hg hs]
+    · simp only [hb, Bool.false_eq_true, if_false]
+      cases p.timer with
+      | nil => rfl
+      | cons t2 ts =>
+        cases p.times with
+        | nil => rfl
+        | cons a as =>
+          obtain ⟨u2, s2⟩ := a
+          simp only [he, pprev]
+          cases List.foldl (pprevStep p.obj) none h with
+          | none => simp [round1, roundN_one_zero]
+          | some v =>
+            obtain ⟨w1, u1, s1⟩ := v
+            simp only [Option.map_some, procStamp, hs, if_true, procFinish_fixed c hg hs]
+
+/-- **C07_proc_percent_counterexample.** With `timer() = _timer() * num_cpus` remembered (the code
+    as found) the full statement is FALSE: a process that used 1 s of CPU during 1 s of wall time
+    while the CPU count went from 2 to 1 is reported a *negative* percentage
+    (`delta_time = 101·1 − 100·2 = −99`), the specification says 100.0. -/
+theorem C07_proc_percent_counterexample (c : Cfg) (hg : c.Good) (hs : c.procScaleDelta = false) :
+    ¬ C07_proc_percent_Full c := by
+  intro hfull
+  have h1 := hfull 100 [⟨0, none, some 2, [100], [(0, 0)]⟩] ⟨0, none, some 1, [101], [(100, 0)]⟩
+  have hl : (pstep c 100 (prunAll c 100 PSt.init [⟨0, none, some 2, [100], [(0, 0)]⟩])
+      ⟨0, none, some 1, [101], [(100, 0)]⟩).2 = .val (roundN 1 (-(100 : ℚ) / 99)) := by
+    simp only [prunAll, pstep, PCall.negative, PCall.blocking, PSt.init, PSt.set, numCpus, procStamp,
+      hs, procFinish, hg.procFactor, hg.procDigits, procSecs]
+    norm_num
+    simp only [pset_same]
+    norm_num
+  have hr : pexpected 100 [⟨0, none, some 2, [100], [(0, 0)]⟩] ⟨0, none, some 1, [101], [(100, 0)]⟩
+      = .val (round1 100) := by
+    simp only [pexpected, pexpectedExact, PCall.negative, PCall.blocking, pprev, pprevStep, ptaken,
+      List.foldl, procExact]
+    norm_num
+  rw [hl, hr] at h1
+  simp only [POut.val.injEq] at h1
+  obtain ⟨_, _, ha, _, _⟩ := roundN_one_isRound1 (-(100 : ℚ) / 99)
+  obtain ⟨_, _, _, hb, _⟩ := roundN_one_isRound1 (100 : ℚ)
+  unfold round1 at h1
+  rw [h1] at ha
+  linarith
 
 /-- **C07_proc_first_call_zero.** The first non-blocking call on an object returns 0.0. -/
 theorem C07_proc_first_call_zero (tck : Nat) (s : PSt) (p : PCall) (t : Rat) (u st : Nat)
